@@ -180,6 +180,7 @@ def run_codec(pid, fmts, tier, seed):
         srecs = [(r, ses.observe(r)) for r in shadow]
         srecs = [(r, x) for r, x in srecs if "skip" not in x]
         sans = judge_batch([x for _, x in srecs])
+        shadow_refused = {r["n"] for (r, x), a in zip(srecs, sans) if x["stage"] != "done"}
         for (r, x), a in zip(srecs, sans):
             run.count(rowkey(r), nontrivial=r["cls"] != "base")
             live.append(r)
@@ -195,7 +196,7 @@ def run_codec(pid, fmts, tier, seed):
                 raise MachineryError(f"representative of value class {r['vc']} (rep {r['rep']}, sep {r['sep']}) has features {rec['feat']} "
                                      "outside Codec!VCTable")
             per_verdict[ans["verdict"]] = per_verdict.get(ans["verdict"], 0) + 1
-            if ans["ok"] and r["vc"] != "absent" and ans["impl"][0] != "unknown" and not ans["agrees"]:
+            if ans["ok"] and r["vc"] != "absent" and ans["impl"][0] != "unknown" and not ans["agrees"] and r["n"] not in shadow_refused:
                 # the transcription predicted something else for the focus entry (no verdict follows from that)
                 k = (r["fmt"], r["kc"], r["vc"], label(ans["impl"]), label(ans["focus"]))
                 drift[k] = drift.get(k, 0) + 1
@@ -215,10 +216,13 @@ def run_codec(pid, fmts, tier, seed):
     finally:
         ses.close()
 
+    if not run.cov["samples"] and rows:
+        run.sample({"row": {k: rows[0][k] for k in ROWKEYS}})
     per = {f: sum(1 for r in rows if r["fmt"] == f) for f in fmts}
     run.set(exhaustive=False,
             rule="rows enumerated by Codec!Rows per format " + str(per) + ": full products class x layout x value class (28), key class (8) x value class (27), "
-                 "model (16) x origin of the model (4)" + (", unit configuration (54) x temperature class (5) x class, material class x adsorbate class x class" if thorough else "")
+                 "model (16) x origin of the model (4)" + (", unit configuration (54) x temperature class (5) x class, material class x adsorbate class x class, class x layout x value class x 4 key classes, "
+                                                "five orthogonal arrays instead of one" if thorough else "")
                  + ", plus an orthogonal array (strength 2, TLC-checked) over the 14 dimensions class, pressure mode, loading basis, material basis, temperature class, "
                  "layout, value class, key class, model, target, separator, material class, adsorbate class, representative; each row = build, export, import, "
                  "projection of both isotherms, judged by Codec!Judge; distinct = distinct rows; non-trivial = the isotherm carries data, a model or a focus metadata entry")
@@ -244,7 +248,7 @@ def attribute(run, ses, bad, drift):
                 groups.setdefault((r["fmt"], r["cls"], part, sym), []).append((r, rec, ans))
 
     todo = {k: list(v) for k, v in groups.items()}
-    for _round in range(5):
+    for _round in range(8):
         active = [k for k in sorted(todo) if todo[k]]
         if not active:
             break
@@ -274,8 +278,12 @@ def attribute(run, ses, bad, drift):
         for k in active:
             cause, sym = causes[k], k[3]
             rest = []
+            rep_ans = todo[k][0][2]
+            # which half of the focus entry identifies the class: the value, the key, or both
+            fkeys = ["vc"] if rep_ans["by_value"] and not rep_ans["by_key"] else (["kc"] if rep_ans["by_key"] and not rep_ans["by_value"] else ["kc", "vc"])
+            need = {d: v for d, v in cause.items() if d not in ("kc", "vc") or d in fkeys}
             for m in todo[k]:
-                if not cause or all(m[0].get(d) == v for d, v in cause.items()):
+                if not cause or all(m[0].get(d) == v for d, v in need.items()):
                     run.violation(cause_sig(m[0], m[2], sym, cause, m[1]), detail(m[0], m[1], m[2]))
                     if "vc" in cause and k[2] in ("focus", "refusal") and m[2]["impl"][0] != "unknown" and not m[2]["agrees"]:
                         dk = (m[0]["fmt"], m[0]["kc"], m[0]["vc"], label(m[2]["impl"]), label(m[2]["focus"]))
